@@ -191,6 +191,7 @@ type c18Run struct {
 	dead    bool
 	fp      strings.Builder
 	nontriv bool
+	rew     *[]string // rows for TestC18Rewards (c18_stake_test.go); nil: not recorded
 }
 
 func (c *c18Run) fail(sig, detail string) {
@@ -439,8 +440,12 @@ func (c *c18Run) block(dt int64) bool {
 			sig = strings.Replace(sig, "C18:block-failed:error:", "C18:block-failed:"+strings.SplitN(rawDetail, ":", 2)[0]+":error:", 1)
 		}
 		obs = k
+		sig += c18StakeCause(c.w) // a more specific suffix where the cause is a known parameter edge (c18_stake_test.go)
 		c.fail(sig, firstLines(err.Error(), 40)+"\n-- keeper-level probe: "+rawDetail)
 		c.dead = true
+	}
+	if c.rew != nil && err == nil {
+		c.rewardRow()
 	}
 	c.blocks = append(c.blocks, fmt.Sprintf("(%d,[%s])", obs, strings.Join(raws, ";")))
 	c.nBlocks++
@@ -723,11 +728,15 @@ func (c *c18Run) param(i int) {
 }
 
 func c18RunHistory(t *testing.T, col *Collector, table []c18Blk, h lHist) {
+	c18RunHistoryX(t, col, table, h, nil)
+}
+
+func c18RunHistoryX(t *testing.T, col *Collector, table []c18Blk, h lHist, rew *[]string) {
 	w := NewWorld(t)
 	m := NewMarket(w, DefaultMarketOpts())
 	x := &lRun{t: t, col: col, prop: "C18", w: w, m: m, h: h, donated: map[string]*big.Int{}, supply0: map[string]sdkmath.Int{}}
 	x.vaultDonated = sdkmath.ZeroInt()
-	c := &c18Run{t: t, col: col, w: w, m: m, x: x, h: h, table: table, outage: map[string]int64{}}
+	c := &c18Run{t: t, col: col, w: w, m: m, x: x, h: h, table: table, outage: map[string]int64{}, rew: rew}
 	c.initKeys()
 	vals, err := w.App.StakingKeeper.GetAllValidators(w.QCtx())
 	if err == nil && len(vals) > 0 {
@@ -751,6 +760,8 @@ func c18RunHistory(t *testing.T, col *Collector, table []c18Blk, h lHist) {
 		switch {
 		case strings.HasPrefix(op.Op, "f_"):
 			c.fault(op)
+		case strings.HasPrefix(op.Op, "s_"): // staking / estaking op family (c18_stake_test.go)
+			c.stake(op)
 		case op.Op == "blocks":
 			for j := int64(0); j < op.N; j++ {
 				if !c.block(op.DT) {
@@ -850,6 +861,16 @@ func TestC18(t *testing.T) {
 		}
 		for i := len(hists); i < n; i++ {
 			hists = append(hists, c18Gen(NewRng(uint64(seed), uint64(i)), i))
+		}
+		// staking / estaking histories (c18_stake_test.go), after the others so that those keep their indices
+		ns := 30
+		if tier() == "thorough" {
+			ns = 400
+		}
+		ns = int(envInt("VERIF_NSTAKE", int64(ns)))
+		hists = append(hists, c18StakeCorpus()...)
+		for i, k := len(hists), 0; k < ns; i, k = i+1, k+1 {
+			hists = append(hists, c18StakeGen(NewRng(uint64(seed), uint64(1_000_000+i)), i))
 		}
 	}
 	RunParallel(len(hists), func(i int) {
